@@ -589,6 +589,29 @@ func TestGrid(t *testing.T) {
 			}
 		}
 	}
+	// "however slowly": more than a second on either side (whatever patience a process has with another, it is not
+	// part of the statement)
+	slowPairs := [][2]int{{0, 1300}, {1300, 0}}
+	if rt.Thorough() {
+		slowPairs = append(slowPairs, [2]int{0, 3000}, [2]int{2500, 2500}, [2]int{40, 5500})
+	}
+	for i, dp := range slowPairs {
+		idx++
+		if idx%sn != si {
+			continue
+		}
+		k := kase{delayMs: dp[0], pauseMs: dp[1], concurrent: 1, childCaller: i%2 == 1}
+		if msg := runCase(k); msg != "" {
+			if strings.HasPrefix(msg, "harness:") {
+				rt.Inconclusivef(t, "%s: %s", k, msg)
+			}
+			t.Errorf("%s: %s", k, msg)
+			return
+		}
+		n++
+		ev.Label("delay_or_pause_over_one_second")
+		ev.Case(k.nontrivial(), ev.Hash(k.String()), k.String)
+	}
 	// several Launch calls at once in one caller process, each for a handler registered under another name
 	for _, c := range []int{2, 4, 8} {
 		for _, d := range []int{0, 20} {
@@ -617,7 +640,7 @@ func TestGenerated(t *testing.T) {
 	rt.Check(t, 30, 4000, func(t *rapid.T) {
 		k := kase{
 			delayMs:     rapid.OneOf(rapid.Just(0), rapid.IntRange(1, 200)).Draw(t, "daemonDelayMs"),
-			pauseMs:     rapid.OneOf(rapid.Just(0), rapid.IntRange(1, 300)).Draw(t, "launcherPauseMs"),
+			pauseMs:     rapid.OneOf(rapid.Just(0), rapid.Just(0), rapid.Just(0), rapid.IntRange(1, 300), rapid.IntRange(1, 300), rapid.IntRange(1, 300), rapid.IntRange(1, 300), rapid.IntRange(1, 300), rapid.IntRange(1, 300), rapid.SampledFrom([]int{1100, 1700})).Draw(t, "launcherPauseMs"),
 			concurrent:  rapid.SampledFrom([]int{1, 1, 2, 3, 4}).Draw(t, "concurrent"),
 			childCaller: rapid.Bool().Draw(t, "childCaller"),
 			afterFailed: rapid.IntRange(0, 3).Draw(t, "afterFailedLaunch") == 0,
